@@ -16,9 +16,11 @@ CHECKS = {
  'C13-r2s1': 'C13,C18', 'C13-r2s2': 'C13', 'C14-r2s1': 'C14,C12', 'C14-r2s2': 'C14', 'C15-r2s1': 'C15', 'C15-r2s2': 'C15',
  'C16-r2s1': 'C16,C17', 'C16-r2s2': 'C16', 'C17-r2s1': 'C17', 'C17-r2s2': 'C17', 'C18-r2s1': 'C18', 'C18-r2s2': 'C18',
  'C19-r2s1': 'C19', 'C19-r2s2': 'C19', 'C20-r2s1': 'C20,C11', 'C20-r2s2': 'C20',
+ 'C05-r3s1': 'C05', 'C07-r3s1': 'C07', 'C10-r3s1': 'C10,C07', 'C11-r3s1': 'C11', 'C11-r3s2': 'C11,C16', 'C14-r3s1': 'C14',
+ 'C15-r3s1': 'C15,C10', 'C17-r3s1': 'C17,C16', 'C19-r3s1': 'C19,C11', 'C19-r3s2': 'C19,C07',
 }
 def seeds():
-    return sorted(d for d in os.listdir(V + '/seeded') if '-r2s' in d)
+    return sorted(d for d in os.listdir(V + '/seeded') if '-r2s' in d or '-r3s' in d)
 def load(sid):
     p = '%s/seeded/%s/meta.json' % (V, sid)
     try: return json.load(open(p))
